@@ -188,7 +188,7 @@ class PatchedSumWeights(BinwisePatchwiseArray):
         self.binning = binning
         self.auto = auto
 
-        if sum_weights1.ndim != sum_weights2.ndim != 2:
+        if sum_weights1.ndim != 2 or sum_weights2.ndim != 2:
             raise ValueError("'sum_weights1/2' must be two-dimensional")
         if sum_weights1.shape != sum_weights2.shape:
             raise ValueError(
